@@ -205,4 +205,18 @@ class C01e(Obligation):
         ctx.check(out.exc is None, '_complete_python never raises')
 
 
-OBLIGATIONS = [C01a, C01b, C01e]
+from obligations.c10 import C10b  # noqa: E402
+from obligations.c18 import C18c  # noqa: E402
+
+
+class C01f(C10b):
+    id = 'C01.f'
+    title = 'totality: constructing the importer for ANY relative import (also beyond the top-level package, also without names) never raises'
+
+
+class C01g(C18c):
+    id = 'C01.g'
+    title = 'totality of result objects: Name.parent() always yields a usable Name (nested comprehension scopes)'
+
+
+OBLIGATIONS = [C01a, C01b, C01e, C01f, C01g]
